@@ -76,11 +76,15 @@ def weird_programs():
         "list-in-dict-in-list": "令怪 = 【1】\n令妖 = 【“a” = 1】\n以怪（后增：妖）\n以妖（写入：“b”、怪）\n",
         "object-property-is-itself": "定义环：\n    其下 = 空\n令怪 = （新建环）\n怪之下 = 怪\n",
         "object-in-its-own-list": "定义环：\n    其表 = 【】\n令怪 = （新建环）\n以怪之表（后增：怪）\n",
-        "result-of-body-with-only-definitions": "如何怪法？\n    如何内？\n        输出1\n令怪 = （怪法）\n",
-        "result-of-empty-handler": "如何怪法？\n    抛出异常：“x”！\n    拦截异常：\n        令丑 = 1\n令怪 = （怪法）\n",
-        "result-of-declaration-body": "如何怪法？\n    令丑 = 1\n令怪 = （怪法）\n",
+        # (results of bodies that produce nothing: the consumers use the call （怪法） itself, once - see INLINE below)
+        "result-of-body-with-only-definitions": "如何怪法？\n    如何内？\n        输出1\n\n",
+        "result-of-body-with-only-a-type": "如何怪法？\n    定义内类：\n        其a = 1\n\n",
+        "result-of-empty-handler": "如何怪法？\n    抛出异常：“x”！\n    拦截异常：\n        令丑 = 1\n\n",
+        "result-of-declaration-body": "如何怪法？\n    令丑 = 1\n\n",
+        "result-of-loop-body": "如何怪法？\n    遍历【】：\n        令丑 = 1\n\n",
+        "result-of-branch-not-taken": "如何怪法？\n    如果假：\n        令丑 = 1\n\n",
         "type-value": "定义环：\n    其下 = 空\n令怪 = 环\n",
-        "method-value": "如何怪法？\n    输出1\n令怪 = 怪法\n",
+        "method-value": "如何怪法二？\n    输出1\n令怪 = 怪法二\n",
     }
     consumers = {
         "display": "（显示：怪）\n输出1\n", "display-call": "（显示：（怪法））\n输出1\n", "return": "输出怪\n", "format": "输出“{}” % 【怪】\n", "json": "输出（生成JSON：【“v” = 怪】）\n", "copy": "令丙 = 怪\n输出1\n",
@@ -92,6 +96,9 @@ def weird_programs():
     for bn, bsrc in builders.items():
         for cn, csrc in consumers.items():
             if cn == "display-call" and "怪法" not in bsrc: continue
+            if bn.startswith("result-of-"):
+                if cn == "display-call": continue
+                csrc = csrc.replace("怪", "（怪法）", 1).replace("以（怪法）（", "以{（怪法）}（") if "以怪" not in csrc else csrc.replace("以怪", "以（怪法）", 1)
             out.append(("%s/%s" % (bn, cn), "导入《@JSON》\n" + bsrc + csrc))
     return out
 
